@@ -308,3 +308,20 @@ def upper_bounded_edges(fn, cmp, var_side):
     if op in ("Gt", "Ge"):
         return fe
     return None
+
+
+def control_switches(fn, block):
+    """switch blocks that decide whether `block` is reached: the block is reachable from some but not all successors of the switch (back
+    edges of the innermost loop around `block` are not followed, so `reached in a later iteration` does not count)."""
+    lps = [l for l in fn.loops() if block in l["body"]]
+    hdr = {min(lps, key=lambda l: len(l["body"]))["header"]} if lps else set()
+    out = []
+    for b in sorted(fn.reachable_blocks()):
+        t = fn.term(b)
+        if t[0] != "switch":
+            continue
+        succ = fn.succs(b)
+        r = [x == block or block in fn.reach_from(x, avoid=hdr - {x}) for x in succ]
+        if any(r) and not all(r) and (b == 0 or b in fn.reach_from(0)):
+            out.append(b)
+    return out
